@@ -252,3 +252,23 @@ Ltac res_inv := repeat match goal with
   | H : Exc _ = Ok _ |- _ => discriminate H
   end.
 Ltac mi_all := repeat (res_inv; match goal with E : _ = (_, _, _) |- _ => progress (mi E) end); res_inv.
+
+(* ---------- induction over the fuel-indexed interpreter ---------- *)
+(* [Post] must accept the out-of-fuel outcome; the step case reasons about [body (run f)] with the induction
+   hypothesis for every call [run f k'] it makes *)
+Lemma run_ind (Pre : kont -> state -> Prop) (Post : kont -> state -> res unit -> state -> list output -> Prop) :
+  (forall k s, Pre k s -> Post k s (Exc X_FUEL) s [OFuel]) ->
+  (forall f, (forall k s r s' o, Pre k s -> run f k s = (r, s', o) -> Post k s r s' o) ->
+     forall k s r s' o, Pre k s -> body (run f) k s = (r, s', o) -> Post k s r s' o) ->
+  forall fuel k s r s' o, Pre k s -> run fuel k s = (r, s', o) -> Post k s r s' o.
+Proof.
+  intros H0 HS. induction fuel as [|f IH]; intros k s r s' o HP H.
+  - cbn [run] in H. unfold bind, emit, raise in H. inversion H; subst. apply H0. exact HP.
+  - cbn [run] in H. eapply HS; eauto.
+Qed.
+
+Lemma retry_idxs_app a b : retry_idxs (a ++ b) = retry_idxs a ++ retry_idxs b.
+Proof.
+  induction a as [|x a IH]; [reflexivity|]. destruct x; cbn [app retry_idxs]; try exact IH.
+  destruct ((kind =? T_RETRY) && (0 <=? idx)); [cbn [app]; rewrite IH; reflexivity | exact IH].
+Qed.
